@@ -117,6 +117,7 @@ type Engine struct {
 	hasPendingVal bool
 
 	FrontierTarget int
+	ChunkPaths     int // stop after this many paths and leave the rest in Frontier (work sharing)
 	Frontier       [][]Decision
 	Initial        [][]Decision
 
@@ -296,6 +297,9 @@ func (e *Engine) branch(c *Sym) bool {
 	tOK, fOK := rt != "unsat", rf != "unsat"
 	switch {
 	case tOK && fOK:
+		if debugOn {
+			debugf("two-sided branch: %s", truncate(c.E, 200))
+		}
 		alt := append(append([]Decision{}, e.trace...), Decision{Taken: false, Val: e.pendingVal})
 		e.work = append(e.work, alt)
 		e.trace = append(e.trace, Decision{Taken: true, Val: e.pendingVal})
@@ -742,6 +746,8 @@ func modelLit(val string, k types.BasicKind) string {
 // pending; they are left in Frontier for other workers (phase 1 of a parallel run).
 func (e *Engine) Explore(run func()) {
 	t0 := time.Now()
+	startPaths := e.Res.Paths
+	e.Frontier = nil
 	if e.Initial != nil {
 		e.work = e.Initial
 	} else {
@@ -749,6 +755,11 @@ func (e *Engine) Explore(run func()) {
 	}
 	for len(e.work) > 0 {
 		if e.FrontierTarget > 0 && len(e.work) >= e.FrontierTarget {
+			e.Frontier = e.work
+			e.work = nil
+			break
+		}
+		if e.ChunkPaths > 0 && e.Res.Paths-startPaths >= e.ChunkPaths {
 			e.Frontier = e.work
 			e.work = nil
 			break
@@ -768,10 +779,11 @@ func (e *Engine) Explore(run func()) {
 		}
 		e.runPath(p, run)
 	}
-	e.Res.WallSeconds = time.Since(t0).Seconds()
+	e.Res.WallSeconds += time.Since(t0).Seconds()
 	e.Res.Queries = e.S.Queries
 	e.Res.SolverErrors = e.S.Errors
 	e.Res.SolverSeconds = e.S.Time.Seconds()
+	e.Res.Assumptions = e.Res.Assumptions[:0]
 	for a := range e.assumptions {
 		e.Res.Assumptions = append(e.Res.Assumptions, a)
 	}
